@@ -580,6 +580,18 @@ pub fn run_c03(run: &mut Run) -> Stats {
             }
         }
     }
+    // (f) leading zeros: 1*DIGIT allows them, whatever the token length
+    for l in [26u64, 1000, u64::MAX] {
+        for z in [1usize, 2, 17, 18, 19, 20, 21, 40, 200] {
+            let zz = "0".repeat(z);
+            headers.push((l, format!("bytes={zz}1-2")));
+            headers.push((l, format!("bytes=1-{zz}2")));
+            headers.push((l, format!("bytes=-{zz}3")));
+            headers.push((l, format!("bytes={zz}5-")));
+            headers.push((l, format!("bytes=0-0,{zz}7-{zz}8")));
+            headers.push((l, format!("bytes={zz}-{zz}")));
+        }
+    }
     // (d) outside the grammar / other units
     for l in [1u64, 10, 1000, u64::MAX] {
         for h in NON_GRAMMAR {
@@ -613,7 +625,7 @@ pub fn run_c03(run: &mut Run) -> Stats {
 // C04
 
 fn tag_lists(k: usize, seps: &[&str]) -> Vec<Option<Vec<u8>>> {
-    let alphabet: [&str; 5] = ["\"v1\"", "W/\"v1\"", "\"zz\"", "W/\"zz\"", "\"a, b\""];
+    let alphabet: [&[u8]; 6] = [b"\"v1\"", b"W/\"v1\"", b"\"zz\"", b"W/\"zz\"", b"\"a, b\"", b"\"v1-caf\xc3\xa9\xff\""];
     let mut out: Vec<Option<Vec<u8>>> = vec![None, Some(b"*".to_vec())];
     // long lists (5..12 tags, some of them long), with the one tag that matters at each position
     if k >= 3 {
@@ -631,7 +643,7 @@ fn tag_lists(k: usize, seps: &[&str]) -> Vec<Option<Vec<u8>>> {
     for n in 1..=k {
         let mut idx = vec![0usize; n];
         'outer: loop {
-            let tags: Vec<&str> = idx.iter().map(|i| alphabet[*i]).collect();
+            let tags: Vec<&[u8]> = idx.iter().map(|i| alphabet[*i]).collect();
             for (si, sep) in seps.iter().enumerate() {
                 if n == 1 && si > 0 {
                     break;
@@ -639,7 +651,7 @@ fn tag_lists(k: usize, seps: &[&str]) -> Vec<Option<Vec<u8>>> {
                 if n > 2 && si > 0 {
                     break;
                 }
-                out.push(Some(tags.join(sep).into_bytes()));
+                out.push(Some(tags.join(sep.as_bytes())));
             }
             let mut j = 0;
             loop {
@@ -727,7 +739,7 @@ pub fn run_c04(run: &mut Run) -> Stats {
 
 pub fn run_c05(run: &mut Run) -> Stats {
     let tier = run.tier;
-    let etags: Vec<Option<Vec<u8>>> = vec![None, Some(b"\"v1\"".to_vec()), Some(b"W/\"v1\"".to_vec())];
+    let etags: Vec<Option<Vec<u8>>> = vec![None, Some(b"\"v1\"".to_vec()), Some(b"W/\"v1\"".to_vec()), Some(b"\"v1-caf\xc3\xa9\xff\"".to_vec()), Some(format!("\"{}\"", "t".repeat(300)).into_bytes())];
     let mtimes = [None, Some(gen::t(gen::LM, 0)), Some(gen::t(gen::LM, 250_000_000))];
     let mut if_ranges: Vec<Vec<u8>> = ["\"v1\"", "W/\"v1\"", "\"v2\"", "\"V1\"", "\"v\"", "\"v11\"", "\"v1", "v1\"", "v1", "\"\"", "*", "W/", "\"v1\" ", " \"v1\"", "\"v1\",\"v1\""]
         .iter()
@@ -755,6 +767,17 @@ pub fn run_c05(run: &mut Run) -> Stats {
             if_ranges.push(v.clone());
         }
         cur = next;
+    }
+    // every entity tag of the alphabet echoed exactly, and with near-miss edits
+    for e in etags.iter().flatten() {
+        if_ranges.push(e.clone());
+        let mut x = e.clone();
+        let n = x.len();
+        x[n - 2] ^= 0x01;
+        if http::HeaderValue::from_bytes(&x).is_ok() {
+            if_ranges.push(x);
+        }
+        if_ranges.push(e[..n - 1].to_vec());
     }
     if_ranges.sort();
     if_ranges.dedup();
@@ -953,10 +976,15 @@ pub fn fault_space(tier: Tier) -> Vec<(&'static str, u64, usize, usize)> {
             }
         }
     }
+    // ranges longer than one rendered piece of a virtual buffer (65536): for these chunks
+    // `chunk().len() < remaining()`, i.e. the entity's Data is a non-contiguous Buf
+    v.push(("full", 70_000, 1, 0));
+    v.push(("single", 200_000, 1, 0));
+    v.push(("multi", 70_000, 2, 1));
     if tier == Tier::Thorough {
         v.push(("full", 100, 1, 0));
-        v.push(("single", 70_000, 1, 0));
         v.push(("multi", 100, 2, 1));
+        v.push(("multi", 1 << 33, 3, 2));
     }
     v
 }
@@ -966,8 +994,9 @@ fn fault_request(shape: &str, n: u64, parts: usize) -> (Req, u64) {
         "full" => (Req::new("GET"), n),
         "single" => (Req::new("GET").with("range", format!("bytes=3-{}", 3 + n - 1).as_bytes()), 1000 + n),
         _ => {
-            let specs: Vec<String> = (0..parts as u64).map(|k| format!("{}-{}", 10 * k + 3, 10 * k + 3 + n - 1)).collect();
-            (Req::new("GET").with("range", format!("bytes={}", specs.join(",")).as_bytes()), 100_000)
+            let stride = (n + 5).max(10);
+            let specs: Vec<String> = (0..parts as u64).map(|k| format!("{}-{}", stride * k + 3, stride * k + 3 + n - 1)).collect();
+            (Req::new("GET").with("range", format!("bytes={}", specs.join(",")).as_bytes()), (stride * parts as u64 * 4 + 100_000).max(100_000))
         }
     }
 }
@@ -1182,7 +1211,7 @@ pub fn run_c13(run: &mut Run) -> Stats {
 // C14
 
 pub fn run_c14(run: &mut Run) -> Stats {
-    let etags: Vec<Option<Vec<u8>>> = vec![None, Some(b"\"v1\"".to_vec()), Some(b"W/\"v1\"".to_vec()), Some(format!("\"{}\"", "e".repeat(300)).into_bytes())];
+    let etags: Vec<Option<Vec<u8>>> = vec![None, Some(b"\"v1\"".to_vec()), Some(b"W/\"v1\"".to_vec()), Some(format!("\"{}\"", "e".repeat(300)).into_bytes()), Some(b"\"v1-caf\xc3\xa9\xff\"".to_vec())];
     let hsets = gen::header_sets();
     // mtime index 6 = one day in the future (computed per execution)
     let past: Vec<Option<std::time::SystemTime>> = vec![None, Some(gen::t(0, 0)), Some(gen::t(gen::LM, 0)), Some(gen::t(gen::LM, 1_000_000)), Some(gen::t(gen::LM, 1)), Some(gen::t(gen::LM, 999_999_999))];
